@@ -17,3 +17,12 @@ def c15_root_pop(ctx):
         for j in range(i + 3, n - 1):
             alts.append(all_of([dd, m[j:j + 2] == "//"]))
     return any_of(alts)
+
+
+def c09_collapsed_authority(ctx):
+    """F09: the input had a non-empty authority text but the stored netloc is empty"""
+    a = ctx.notes.get("authority_text")
+    st = ctx.notes.get("stored_netloc")
+    if a is None or st is None:
+        return False
+    return len(a) > 0 and len(st) == 0
